@@ -166,3 +166,169 @@ Fixpoint checkT_go (t : option tracker) (ops : list dop) (obs : list dobs) : boo
 
 Definition checkT (pre : list string) (ops : list dop) (obs : list dobs) : bool * bool :=
   checkT_go (Some (dinit pre)) ops obs.
+
+(* ====================================================================================================
+   Shared counters (partitionable devices) and consumable capacity (allowMultipleAllocations devices).
+   partitionable_devices.go / consumable_capacity.go keep, for in-cluster pools and devices, the cumulative
+   consumption per (NodeClaim, instance type) and charge the shared budget with the pessimistic maximum over the
+   NodeClaim's instance types (a NodeClaim collapses to one of them): commit charges max'-max, release refunds
+   max-max'. A budget key is "pool/counterSet/counter" or "device/dimension". Template (potential) pools and devices
+   are private to a (NodeClaim, instance type) and are charged directly. Consumptions are non-negative.
+   ==================================================================================================== *)
+Definition key := string.
+Definition cons := list (key * Z).
+
+Fixpoint look (k : key) (c : cons) : Z :=
+  match c with [] => 0 | (k', v) :: t => if String.eqb k k' then v else look k t end.
+
+Definition posd (d : Z) : Z := if 0 <? d then d else 0.
+
+Fixpoint pmaxl (f : ity -> Z) (its : list ity) : Z :=
+  match its with [] => 0 | it :: r => Z.max (f it) (pmaxl f r) end.
+
+Record ledger := mkL {
+  l_its : ncid -> list ity;                 (* instance types with an entry for the NodeClaim *)
+  l_stored : ncid -> ity -> key -> Z;       (* countersByNodeClaimIT / consumedCapacityByNodeClaimIT *)
+  l_used : key -> Z                         (* total charged: InflightConsumedCapacity, or initial - RemainingCounters *)
+}.
+
+Definition linit : ledger := mkL (fun _ => []) (fun _ _ _ => 0) (fun _ => 0).
+
+Definition pmax (l : ledger) (n : ncid) (k : key) : Z := pmaxl (fun it => l_stored l n it k) (l_its l n).
+
+Definition find_cons (it : ity) (new : list (ity * cons)) : option cons :=
+  match find (fun p => String.eqb (fst p) it) new with Some p => Some (snd p) | None => None end.
+
+Definition add_its (new : list (ity * cons)) (its : list ity) : list ity :=
+  fold_left (fun acc p => if mem (fst p) acc then acc else app acc [fst p]) new its.
+
+(* commitCounters / commitCapacity *)
+Definition lcommit (l : ledger) (n : ncid) (new : list (ity * cons)) : ledger :=
+  if is_nil new then l else
+  let stored' := fun n' it k =>
+        if String.eqb n' n then
+          match find_cons it new with Some c => l_stored l n' it k + look k c | None => l_stored l n' it k end
+        else l_stored l n' it k in
+  let its' := fun n' => if String.eqb n' n then add_its new (l_its l n) else l_its l n' in
+  let l1 := mkL its' stored' (l_used l) in
+  mkL its' stored' (fun k => l_used l k + posd (pmax l1 n k - pmax l n k)).
+
+(* releaseCounters / releaseCapacity *)
+Definition lrelease (l : ledger) (n : ncid) (its : list ity) : ledger :=
+  let stored' := fun n' it k => if String.eqb n' n && mem it its then 0 else l_stored l n' it k in
+  let its' := fun n' => if String.eqb n' n then filter (fun it => negb (mem it its)) (l_its l n) else l_its l n' in
+  let l1 := mkL its' stored' (l_used l) in
+  mkL its' stored' (fun k => l_used l k - posd (pmax l n k - pmax l1 n k)).
+
+(* the allocator's check, per instance type of the proposal: what is charged so far plus this instance type's new
+   consumption stays within the budget (checkCounters: remaining - allocating >= need; checkCapacity:
+   preallocated + inflight + allocating + new <= capacity) *)
+Definition lguard (budget : key -> Z) (l : ledger) (new : list (ity * cons)) : Prop :=
+  NoDup (map fst new) /\
+  forall it c, In (it, c) new -> forall k, 0 <= look k c /\ l_used l k + look k c <= budget k.
+
+Fixpoint nodup_b (l : list string) : bool :=
+  match l with [] => true | x :: t => negb (mem x t) && nodup_b t end.
+
+(* the same check over a finite list of keys (the keys the case mentions) *)
+Definition lguard_b (budget : key -> Z) (ks : list key) (l : ledger) (new : list (ity * cons)) : bool :=
+  nodup_b (map fst new) &&
+  forallb (fun p => forallb (fun k => (0 <=? look k (snd p)) && (l_used l k + look k (snd p) <=? budget k)) ks) new.
+
+(* template pools / devices: private to (NodeClaim, instance type) *)
+Definition tledger := ncid -> ity -> key -> Z.
+
+Definition tcommit (t : tledger) (n : ncid) (new : list (ity * cons)) : tledger :=
+  fun n' it k => if String.eqb n' n then
+                   match find_cons it new with Some c => t n' it k + look k c | None => t n' it k end
+                 else t n' it k.
+
+Definition trelease (t : tledger) (n : ncid) (its : list ity) : tledger :=
+  fun n' it k => if String.eqb n' n && mem it its then 0 else t n' it k.
+
+(* ---- the whole tracker ---- *)
+Record xtracker := mkX { x_excl : tracker; x_cnt : ledger; x_cap : ledger; x_tmpl : tledger }.
+
+Definition xinit (pre : list string) : xtracker := mkX (dinit pre) linit linit (fun _ _ _ => 0).
+
+Inductive xop :=
+| XCommit (n : ncid) (devs : list (ity * list dev)) (cnt cap tmpl : list (ity * cons))
+| XRelease (n : ncid) (its : list ity)
+| XIsAlloc (d : dev) (n : ncid) (it : ity).
+
+Definition xstep (x : xtracker) (o : xop) : option xtracker * dout :=
+  match o with
+  | XCommit n devs cnt cap tmpl =>
+      match dcommit (x_excl x) n devs with
+      | None => (None, DPanic)
+      | Some t' => (Some (mkX t' (lcommit (x_cnt x) n cnt) (lcommit (x_cap x) n cap) (tcommit (x_tmpl x) n tmpl)), DUnit)
+      end
+  | XRelease n its =>
+      match drelease (x_excl x) n its with
+      | None => (None, DPanic)
+      | Some t' => (Some (mkX t' (lrelease (x_cnt x) n its) (lrelease (x_cap x) n its) (trelease (x_tmpl x) n its)), DUnit)
+      end
+  | XIsAlloc d n it => (Some x, DBool (dis_allocated (x_excl x) d n it))
+  end.
+
+Fixpoint xrun (x : xtracker) (ops : list xop) : option xtracker :=
+  match ops with
+  | [] => Some x
+  | o :: r => match fst (xstep x o) with None => None | Some x' => xrun x' r end
+  end.
+
+(* ---- consumable capacity request policy (calculateConsumedCapacity + violatesPolicy), integral quantities ---- *)
+Record policy := mkPol {
+  p_default : option Z;
+  p_range : option (option Z * option Z * option Z);   (* ValidRange: Min, Max, Step *)
+  p_values : list Z                                   (* ValidValues, ascending; [] = nil *)
+}.
+
+Definition round_up_range (req mn : Z) (step : option Z) : Z :=
+  if req <? mn then mn
+  else match step with
+       | None => req
+       | Some s => let added := req - mn in
+                   let n := Z.quot added s in
+                   mn + s * (if Z.rem added s =? 0 then n else n + 1)
+       end.
+
+Fixpoint round_up_values (req : Z) (vs : list Z) : Z :=
+  match vs with [] => req | v :: t => if req <=? v then v else round_up_values req t end.
+
+(* total = DeviceCapacity.Value; None = no RequestPolicy *)
+Definition consumed_capacity (req : option Z) (total : Z) (pol : option policy) : Z :=
+  match req with
+  | None => match pol with
+            | Some p => match p_default p with Some d => d | None => total end
+            | None => total
+            end
+  | Some r =>
+      match pol with
+      | None => r
+      | Some p =>
+          match p_range p with
+          | Some (Some mn, _, step) => round_up_range r mn step
+          | _ => match p_values p with [] => r | vs => round_up_values r vs end
+          end
+      end
+  end.
+
+Definition violates_policy (c : Z) (pol : option policy) : bool :=
+  match pol with
+  | None => false
+  | Some p =>
+      if match p_default p with Some d => c =? d | None => false end then false
+      else match p_range p with
+           | Some (mn, mx, step) =>
+               (match mx with Some m => m <? c | None => false end) ||
+               (match step, mn with
+                | Some s, Some m => negb (Z.rem (c - m) s =? 0)
+                | _, _ => false
+                end)
+           | None => match p_values p with
+                     | [] => false
+                     | vs => negb (existsb (fun v => c =? v) vs)
+                     end
+           end
+  end.
